@@ -16,7 +16,11 @@ func main() {
 	worker := flag.String("worker", "", "i/n (internal)")
 	out := flag.String("out", "", "worker result file (internal)")
 	startNs := flag.Int64("start", 0, "start time (internal)")
+	schedExec := flag.String("sched-exec", "", "execute one recorded schedule in this fresh process (internal)")
 	flag.Parse()
+	if *schedExec != "" {
+		os.Exit(checks.C14Exec(*schedExec))
+	}
 	args := flag.Args()
 	if len(args) >= 2 && args[0] == "replay" {
 		os.Exit(fw.Replay(args[1]))
